@@ -473,8 +473,7 @@ var headerParamPool = sync.Pool{
 }
 
 // getOffer return valid offer for header negotiation.
-// Do not pass header using utils.UnsafeBytes - this can cause a panic due
-// to the use of utils.ToLowerBytes.
+// The header is only read, never modified.
 func getOffer(header []byte, isAccepted func(spec, offer string, specParams headerParams) bool, offers ...string) string {
 	if len(offers) == 0 {
 		return ""
@@ -515,7 +514,9 @@ func getOffer(header []byte, isAccepted func(spec, offer string, specParams head
 						}
 						return false
 					}
-					lowerKey := utils.UnsafeString(utils.ToLowerBytes(key))
+					// lower-case a copy: key points into the request's header value, which handlers
+					// may hold (c.Get) and which must read as the client sent it
+					lowerKey := utils.ToLower(utils.UnsafeString(key))
 					params[lowerKey] = value
 					return true
 				})
